@@ -631,7 +631,131 @@ def c02(ctx):
     ctx.notes.append("extreme 64-bit integers: see C06; non-ASCII text in literals: see C15")
 
 
+ENV_CONFIGS = ["base", "subdir", "absolute", "dotslash", "dotdot", "envfull", "envempty", "stdinfile",
+               "stdinpipe", "stdoutfile", "junkfiles"]
+
+
+def env_matrix(ctx, cases, name, per_case):
+    """Every program is run under several configurations (working directory, spelling
+    of the script path, environment, stdin, stdout, neighbouring files), each a
+    separate process (so a separate hash seed); every run must be byte-identical to
+    the specification's single prediction (the path is echoed as given)."""
+    import random
+    import subprocess
+    plain = sv.build(False)
+    root = sv.scratch("env-" + name)
+    rnd = random.Random(ctx.seed)
+    jobs = []
+    for i, (key, body, outcome) in enumerate(cases):
+        if outcome is None or outcome["status"]["k"] not in ("done", "failed"):
+            continue
+        cfgs = ENV_CONFIGS if per_case >= len(ENV_CONFIGS) else rnd.sample(ENV_CONFIGS, per_case)
+        jobs.append((i, key, body, outcome, cfgs))
+
+    def one(job):
+        i, key, body, outcome, cfgs = job
+        pl = rp.Placed(body)
+        d = os.path.join(root, "c%d" % i)
+        os.makedirs(os.path.join(d, "sub"), exist_ok=True)
+        with open(os.path.join(d, "p.sd"), "w", encoding="utf-8") as f:
+            f.write(pl.text)
+        bad = []
+        for cfg in cfgs:
+            cwd, path = d, "p.sd"
+            env = {"PATH": "/usr/bin:/bin"}
+            stdin = subprocess.DEVNULL
+            to_file = False
+            if cfg == "subdir":
+                cwd, path = os.path.join(d, "sub"), "../p.sd"
+            elif cfg == "absolute":
+                cwd, path = "/", os.path.join(d, "p.sd")
+            elif cfg == "dotslash":
+                path = "./p.sd"
+            elif cfg == "dotdot":
+                path = "sub/../p.sd"
+            elif cfg == "envfull":
+                env = {"PATH": "/usr/bin:/bin", "LANG": "de_DE.UTF-8", "LC_ALL": "tr_TR.UTF-8",
+                       "LC_NUMERIC": "fr_FR", "RUST_BACKTRACE": "full", "HOME": "/nonexistent",
+                       "TZ": "Pacific/Kiritimati", "SEED_X": "1", "COLUMNS": "10", "NO_COLOR": "1",
+                       "RUST_LOG": "trace", "TERM": "dumb"}
+            elif cfg == "envempty":
+                env = {}
+            elif cfg == "stdinfile":
+                stdin = open(os.path.join(d, "p.sd"), "rb")
+            elif cfg == "stdinpipe":
+                stdin = subprocess.PIPE
+            elif cfg == "junkfiles":
+                for n in ("print", "p.sd.bak", "p", "seed.toml", ".seedrc"):
+                    open(os.path.join(d, n), "w").write("x := 1\nprint(x)\n")
+            exp = sv.expected(outcome, path, pl.loc)
+            try:
+                if cfg == "stdoutfile":
+                    with open(os.path.join(d, "out.txt"), "wb") as of:
+                        p = subprocess.run([plain, path], cwd=cwd, env=env, stdin=stdin, stdout=of,
+                                           stderr=subprocess.PIPE, timeout=20)
+                    so = open(os.path.join(d, "out.txt"), "rb").read()
+                else:
+                    if stdin == subprocess.PIPE:
+                        p = subprocess.run([plain, path], cwd=cwd, env=env, input=b"junk\n",
+                                           stdout=subprocess.PIPE, stderr=subprocess.PIPE, timeout=20)
+                    else:
+                        p = subprocess.run([plain, path], cwd=cwd, env=env, stdin=stdin,
+                                           stdout=subprocess.PIPE, stderr=subprocess.PIPE, timeout=20)
+                    so = p.stdout
+                se, code = p.stderr, p.returncode
+            except subprocess.TimeoutExpired:
+                so, se, code = b"", b"", None
+            finally:
+                if hasattr(stdin, "close"):
+                    stdin.close()
+            if not sv.matches(exp, so, se, code):
+                bad.append((cfg, pl.text, sv.show_exp(exp),
+                            {"stdout": so.decode(errors="replace"), "stderr": se.decode(errors="replace"),
+                             "exit": code}))
+        return key, len(cfgs), bad
+    res = sv.pmap(one, jobs)
+    for key, n, bad in res:
+        ctx.evaluations += n
+        ctx.validated += n
+        ctx.nontrivial.add(name + ":" + key)
+        for cfg, text, exp, act in bad:
+            ctx.violation("run under configuration `%s` differs from the specification's prediction (%s %s)"
+                          % (cfg, name, key), script=text, detail={"config": cfg, "expected": exp, "actual": act})
+
+
+def c19(ctx):
+    per = 3 if ctx.quick else len(ENV_CONFIGS)
+    ctx.rule = ("11 pairs of construction histories of equal values (literal / concatenation / range / element-wise "
+                "assignment / key orders / insertion / spread / shared vs copied child / alias / nested with "
+                "multi-line strings / depth 4) printed and compared; atoms, functions, empty containers, key "
+                "ordering; RenderShape (independent line-oriented formulation = Render) as an ASSUME over a pool "
+                "to depth 4; determinism = maximal out-degree 1 of every explored state graph; these programs and "
+                "the programs of the C12 / C13 models each run under %d of 11 configurations (cwd, path spelling, "
+                "environment, stdin, stdout, neighbouring files; separate processes = separate hash seeds); "
+                "non-trivial = every (program, configuration) run; distinct = distinct programs" % per)
+    out = ctx.run_model("MC_C19", "C19Params", invariants=["C19Laws"], props=["HeapFrame", "OutputMonotone"])
+    for l in out:
+        m = re.search(r"the maximum (\d+) and", l)
+        if m and int(m.group(1)) > 1:
+            raise sv.ToolError("the machine is not deterministic: out-degree %s" % m.group(1))
+    ctx.notes.append("ASSUME RenderShape checked by TLC at start-up; maximal out-degree of the state graph = 1")
+    cases, _ = ctx.replay(out, "c19", seeds=(None, ctx.seed))
+    env_matrix(ctx, cases, "c19", len(ENV_CONFIGS))
+    out12 = ctx.run_model("MC_C12", "C12Params", invariants=["C12Laws"], constants={"HistLen": "= 1"}, name="MC_C12h1")
+    env_matrix(ctx, rp.join_runs(out12), "c19-c12", per)
+    out13 = ctx.run_model("MC_C13", "C13Params", invariants=["C13Laws"],
+                          constants={"MaxPat": "= %d" % (1 if ctx.quick else 2), "MaxSrc": "= 2"}, name="MC_C13s")
+    env_matrix(ctx, rp.join_runs(out13), "c19-c13", per)
+    if not ctx.quick:
+        out17 = ctx.run_model("MC_C17", "C17Params", invariants=["C17Laws"], constants={"MaxDepth": "= 1"},
+                              name="MC_C17d1")
+        env_matrix(ctx, rp.join_runs(out17), "c19-c17", 4)
+    scripts = [s for s in repo_test_scripts() if "print" in s[0] or "values" in s[0]]
+    corpus_validate(ctx, scripts, "c19tests")
+
+
 REGISTRY = {
+    "C19": c19,
     "C02": c02,
     "C01": c01,
     "C17": c17,
